@@ -119,3 +119,25 @@ def pyStrContains (s sub : String) : Bool :=
   (List.range (cs.length + 1)).any fun i => (cs.drop i).take ss.length == ss
 
 end Cv.Py
+
+namespace Cv.Py
+
+/-- `raise SomeError(...)` -/
+def pyRaise : Option Unit := none
+
+/-- Python's clamping of a slice bound: negative counts from the end, then clamp to `[0, len]` -/
+def pyClamp (len : Nat) (i : Int) : Nat :=
+  let j := if i < 0 then i + (len : Int) else i
+  if j < 0 then 0 else min j.toNat len
+
+/-- `x[a:b]` (no step); `none` = bound omitted -/
+def pySlice {α : Type} (x : List α) (a b : Option Int) : List α :=
+  let lo := match a with | none => 0 | some i => pyClamp x.length i
+  let hi := match b with | none => x.length | some i => pyClamp x.length i
+  (x.drop lo).take (hi - lo)
+
+/-- `x.remove(v)`: removes the first occurrence; `none` = ValueError -/
+def pyRemove {α : Type} [BEq α] (x : List α) (v : α) : Option (List α) :=
+  if x.contains v then some (x.erase v) else none
+
+end Cv.Py
